@@ -689,6 +689,15 @@ def castling_unknown_refused(F, fn, exp=None):
     for ch in "xAa1 /w?":
         if not any(hir.fold(t, {cv: ("lit", ch)}) == ("lit", True) for _, t in rets):
             bad.append(ch)
+    # ... and the five characters the field is made of are not refused (`-` stands for "no rights" and must be let through)
+    # (a lone dash may also be recognised as the whole field before the loop is entered: then the loop need not know it)
+    outer = hir.guards_of(loop, body, sym) or []
+    dash_outside = any(("lit", "-") in set(hir.subterms(x[1])) for x in outer if x[0] in ("if", "arm") and isinstance(x[1], tuple))
+    for ch in "KQkq-":
+        if ch == "-" and dash_outside:
+            continue
+        if any(hir.fold(t, {cv: ("lit", ch)}) == ("lit", True) for _, t in rets):
+            bad.append("refuses " + ch)
     return bad
 
 
